@@ -302,3 +302,44 @@ Theorem C16_overlap_example :
   fix_mapping_overlap [[1; 2; 3]; [1; 2]; [2; 5]] = Ok [[1; 2; 3]; [4; 5]; [6; 7]].
 Proof. exact overlap_example. Qed.
 Print Assumptions C16_overlap_example.
+
+(* ---------- Reactor._single_stage: collision remap of a patched product against the molecules that take no part ---------- *)
+Theorem C16_stage_remap_disjoint : forall new ignored out,
+  stage_remap new ignored = Ok out -> NoDup new ->
+  length out = length new /\ NoDup out /\ (forall x, In x out -> ~ In x ignored) /\
+  (forall i d, ~ In (nth i new d) ignored -> nth i out d = nth i new d).
+Proof. exact stage_remap_disjoint. Qed.
+Print Assumptions C16_stage_remap_disjoint.
+
+Theorem C16_stage_remap_total : forall new ignored, exists out, stage_remap new ignored = Ok out.
+Proof. exact stage_remap_total. Qed.
+Print Assumptions C16_stage_remap_total.
+
+Theorem C16_stage_remap_identity : forall new ignored,
+  (forall x, In x new -> ~ In x ignored) -> stage_remap new ignored = Ok new.
+Proof. exact stage_remap_identity. Qed.
+Print Assumptions C16_stage_remap_identity.
+
+Theorem C16_stage_remap_example :
+  NoDup [1; 2; 3; 8; 9] /\ stage_remap [1; 2; 3; 8; 9] [8; 9; 10; 11] = Ok [1; 2; 3; 12; 13].
+Proof. exact stage_remap_example. Qed.
+Print Assumptions C16_stage_remap_example.
+
+(* ---------- numbering independence of the deleted set ---------- *)
+(* for ANY injective renumbering s of the structure: _get_deleted of the renumbered structure under the renumbered match
+   returns the renumbered set *)
+Theorem C16_get_deleted_equivariant : forall (s : Z -> Z), (forall a b, s a = s b -> a = b) ->
+  forall g mapping to_del r r',
+    sym_graph g = true ->
+    (forall p, In p to_del -> exists v, zget mapping p = Some v /\ In v (keys g)) ->
+    get_deleted g mapping to_del = Ok r ->
+    get_deleted (rename_graph s g) (rename_match s mapping) to_del = Ok r' ->
+    forall x, In x r' <-> exists y, In y r /\ x = s y.
+Proof. exact get_deleted_equivariant. Qed.
+Print Assumptions C16_get_deleted_equivariant.
+
+Theorem C16_equivariant_example :
+  (forall a b : Z, a + 10 = b + 10 -> a = b) /\
+  sorted_res (get_deleted (rename_graph (fun x => x + 10) wit2_g) (rename_match (fun x => x + 10) wit2_mapping) wit2_to_del) = Ok [12; 13; 14; 16].
+Proof. exact equivariant_example. Qed.
+Print Assumptions C16_equivariant_example.
